@@ -100,7 +100,11 @@ def main(argv):
     seed0 = d.get("seed", 0)
     for k in range(n_search):
         # inputs the model does not mention are drawn from the seeded generator: vary the seed as well
-        tries.append(("search-%d" % k, perturb(rng, inputs, 0.05 if k < n_search // 2 else 0.5)))
+        if inputs and k % 2 == 1:
+            # every other try ignores the candidate model and samples the declared ranges afresh
+            tries.append(("random-%d" % k, {}))
+        else:
+            tries.append(("search-%d" % k, perturb(rng, inputs, 0.05 if k < n_search // 2 else 0.5)))
     last = ("holds", "")
     evaluated = 0
     raised = None
